@@ -6,6 +6,8 @@
      Json       JSON string-literal encoding of a payload string (only the escapes that matter here)
      ClassEsc   '"__class__":' <-> '"@":'       (global text replacement on the JSON text)
      TtyEsc     ESC / '\x1b' -> '\e' ; '\e' -> ESC  (global text replacement on the JSON text)
+     Sniff      the JSON loader behind unpack() (util/fromjson.py) turns every string VALUE that starts with  f{  or  \e[  into a
+                Style object (the written form of styled text); dict keys are not looked at
    Required law (the property):  Unpack(Pack(p)) = p  for every payload.  TLC evaluates, for every payload string up to MaxLen, both
    the law on the layers AS CODED (the witnesses where it fails are exactly the listed known findings) and the per-layer outputs
    that the harness compares with the real functions.  Characters: "~" "a" "1" "B"(=backslash) "e" "E"(=ESC) "q"(=double quote) "@" ":" "_"  *)
@@ -90,22 +92,24 @@ Text(kind, s) == CASE kind = "str"  -> <<"{", "q", "d", "q", ":", "q">> \o JsonS
                    [] kind = "item" -> <<"{", "q", "d", "q", ":", "[", "q">> \o JsonStr(RleEnc(s)) \o <<"q", "]", "}">>
 Wire(kind, s) == TtyEsc(ClassEsc(Text(kind, s)))
 Back(kind, s) == ClassUn(TtyUn(Wire(kind, s)))
-AsCodedOK(kind, s) == Back(kind, s) = Text(kind, s)
+Sniffed(s) == IsAt(s, 1, <<"f", "{">>) \/ IsAt(s, 1, <<"B", "e", "[">>)
+AsCodedOK(kind, s) == Back(kind, s) = Text(kind, s) /\ (kind = "key" \/ ~Sniffed(s))
 
 Strings == UNION {[1..n -> Alphabet] : n \in 0..MaxLen}
 RleRoundTrip == \A s \in Strings : RleDec(RleEnc(s)) = s
 
 RECURSIVE Cat(_)
 Cat(u) == IF u = <<>> THEN "" ELSE Head(u) \o Cat(Tail(u))
-Order == <<"~", "a", "1", "B", "e", "E", "q", "@", "n">>      \* every alphabet character gets its own digit
+Order == <<"~", "a", "1", "B", "e", "E", "q", "@", "n", "f", "{", "[">>      \* every alphabet character gets its own letter
 Idx(c) == CHOOSE i \in 1..Len(Order) : Order[i] = c
+Letter == <<"a", "b", "c", "d", "e", "f", "g", "h", "i", "j", "k", "l">>
 RECURSIVE Id(_)
-Id(u) == IF u = <<>> THEN "" ELSE ToString(Idx(Head(u)) % 10) \o Id(Tail(u))
+Id(u) == IF u = <<>> THEN "" ELSE Letter[Idx(Head(u))] \o Id(Tail(u))
 VARIABLES s, done
 Init == s \in Strings /\ done = FALSE
 Next == /\ ~done /\ done' = TRUE /\ UNCHANGED s
         /\ PrintT("RES s" \o Id(s) \o " " \o
                   ToJson([s |-> s, enc |-> RleEnc(s), dec |-> RleDec(RleEnc(s)), twopass |-> RleDecTwoPass(RleEnc(s)) = s,
-                          str |-> AsCodedOK("str", s), key |-> AsCodedOK("key", s), item |-> AsCodedOK("item", s)]))
+                          str |-> AsCodedOK("str", s), key |-> AsCodedOK("key", s), item |-> AsCodedOK("item", s), sniffed |-> Sniffed(s)]))
 RleLaw == RleDec(RleEnc(s)) = s
 =============================================================================
